@@ -130,6 +130,7 @@ def conclude(job, spec, a, t0):
 
 
 # ---------------------------------------------------------------------------------
+SEARCH_BUDGET = [int(os.environ.get("VERIF_SEARCHES", "16"))]
 PLAYBACK_BUDGET = [int(os.environ.get("VERIF_PLAYBACKS", "2"))]
 
 
@@ -163,8 +164,11 @@ def make_replay(job, oname, r):
                 rec["kani_counterexample_bytes"] = vals
                 if vals is not None:
                     _native(job, P, ["bytes"] + [str(v) for v in vals], rec, r, "kani concrete playback")
-            if not r.get("replayed"):
-                _native(job, P, ["search", "200000", str(job.seed)], rec, r, "native search guided by the failed obligation")
+            if not r.get("replayed") and SEARCH_BUDGET[0] > 0:
+                SEARCH_BUDGET[0] -= 1
+                _native(job, P, ["search", "40000", str(job.seed)], rec, r, "native search guided by the failed obligation")
+            elif not r.get("replayed"):
+                rec["replay_skipped"] = "replay budget for this run exhausted (first failures carry replays)"
         except Exception as ex:
             rec["replay_error"] = repr(ex)
     rec["replayed_against_real_code"] = bool(r.get("replayed"))
